@@ -49,8 +49,9 @@ CatWhy(c, o) ==
     LET n   == Len(o.ident)
         at(idn) == CHOOSE k \in 1 .. n : o.ident[k] = idn
         r2  == 0                                     \* root of tree 2 before re-rooting
-        TyOK2(k, t) == IF k = r2 /\ c.j # r2 THEN t \in {c.ty2[r2 + 1], c.ty2[c.j + 1]}
-                       ELSE IF k = c.j /\ c.j # r2 THEN t \in {c.ty2[r2 + 1], c.ty2[c.j + 1]}
+        \* re-rooting exchanges the types of the old and the new root: nodes that were a root at some point (0, pre2, j) may carry each other's types
+        Rooted == {r2, c.j} \cup (IF c.pre2 > 0 THEN {c.pre2} ELSE {})
+        TyOK2(k, t) == IF k \in Rooted /\ Cardinality(Rooted) > 1 THEN t \in { c.ty2[x + 1] : x \in Rooted }
                        ELSE t = c.ty2[k + 1] IN
     IF ~Injective(o.ident) \/ Range(o.ident) # CatNodes(c)                    THEN "node-set"
     ELSE IF \E k \in 1 .. n : o.rpid[k] # -1 /\ o.rpid[k] \notin 0 .. n - 1   THEN "dangling-parent"
